@@ -431,6 +431,29 @@ func ruleC05e(c *Ctx) []*report.Result {
 		r.Check(len(ma[k]) >= 2, "(*internal/rfmt.pp).printArg / "+k+" on both of its routes", c.P.Pos(pa.Pos()), fmt.Sprintf("printArg tests %s on %d of its 2 routes", k, len(ma[k])))
 		r.Check(len(mv[k]) >= 1, "(*internal/rfmt.pp).printValue / "+k, c.P.Pos(pv.Pos()), "the reflective route below the top level no longer tests "+k)
 	}
+	// the static-type lookup must not depend on CanInterface(): values that
+	// cannot be interfaced (unexported fields) are classified by it alone
+	staticLookup := func(fn *ssa.Function, m map[string][]*ssa.BasicBlock) bool {
+		for _, b := range fn.Blocks {
+			for _, ins := range b.Instrs {
+				call, ok := ins.(*ssa.Call)
+				if !ok {
+					continue
+				}
+				if f := call.Common().StaticCallee(); f != nil && f.String() == "(reflect.Value).CanInterface" {
+					for _, rb := range m["registry"] {
+						if rb == b || rb.Dominates(b) {
+							return true
+						}
+					}
+					return false
+				}
+			}
+		}
+		return false
+	}
+	r.Check(staticLookup(pv, mv), "(*internal/rfmt.pp).printValue / registry consulted before CanInterface", c.P.Pos(pv.Pos()), "the registry lookup with the static type must precede (dominate) the CanInterface() test: values that cannot be interfaced are classified by it alone")
+	r.Check(staticLookup(pa, ma), "(*internal/rfmt.pp).printArg / registry consulted before CanInterface", c.P.Pos(pa.Pos()), "the registry lookup with the static type must precede (dominate) the CanInterface() test on the reflect.Value route")
 	r.Check(len(ma["special"]) >= 1, "(*internal/rfmt.pp).printArg / special values on the reflect.Value route", c.P.Pos(pa.Pos()), "the reflect.Value route no longer calls the special-value helper")
 	r.Check(len(mv["special"]) >= 1, "(*internal/rfmt.pp).printValue / special values", c.P.Pos(pv.Pos()), "the reflective route no longer calls the special-value helper")
 	// order: wrappers / special values before method dispatch
